@@ -62,6 +62,27 @@ class NaiveBuf:
                 return "err:eos"
             self.bits += src[off:off + n]
             return "ok"
+        if k == "init":
+            # from_bits(octets, len): the written bits are the first `len`; what the spare octets hold is
+            # outside the Vec<bool> model, so only sequences whose octets are exactly ceil(len/8) zero-padded
+            # octets are judged by it (the others are compared with the Lean model only)
+            data, n = bits_of(unhex(p[1])), int(p[2])
+            if len(data) != 8 * ((n + 7) // 8) or any(data[n:]):
+                return None
+            self.bits = data[:n]
+            self.rp = 0
+            return "ok"
+        if k == "at":
+            # a write placed inside the written bits changes exactly those bits; the cursor stays
+            pos = int(p[1])
+            sub = NaiveBuf()
+            r = sub.op(":".join(p[2:]))
+            if r != "ok":
+                return r
+            if pos + len(sub.bits) > len(self.bits):
+                return None    # reaches beyond the written bits: outside the property
+            self.bits[pos:pos + len(sub.bits)] = sub.bits
+            return "ok"
         if k == "patch":
             pos, x = int(p[1]), int(p[2])
             if pos < len(self.bits):
@@ -195,6 +216,52 @@ class BitsStream(runner.Stream):
                 else:
                     ops.append(f"patch:{rng.range(0, 40)}:{rng.below(2)}")
             reqs.append("bits buf " + " ".join(ops))
+        # writes placed at a position (`with_write_position_at`) and buffers taken over from octets
+        # (`from_bits`, with and without spare octets): in place, nothing else changes, the cursor stays
+        r2 = rng.fork("placed")
+        for i in range(m):
+            ops = []
+            written = 0
+            if i % 3 != 0:
+                nb = r2.range(0, 10)
+                written = r2.range(0, 8 * nb) if r2.chance(1, 2) else 8 * r2.range(0, nb)
+                if r2.chance(1, 2):
+                    data = bytearray(r2.bytes((written + 7) // 8))
+                    if written % 8:
+                        data[-1] &= (0xFF << (8 - written % 8)) & 0xFF
+                    data = bytes(data)
+                else:
+                    data = r2.bytes(nb)             # spare octets behind the bits
+                ops.append(f"init:{hexs(data)}:{written}")
+            for _ in range(r2.range(1, 14)):
+                c = r2.below(10)
+                sl = r2.range(0, 5)
+                src = hexs(r2.bytes(sl))
+                if c <= 2:
+                    w = r2.choice([f"ww:{src}", f"wl:{src}:{r2.range(0, 8 * sl)}", f"wb:{r2.below(2)}",
+                                   f"w:{src}:{r2.range(0, 8 * sl)}:{r2.range(0, 8 * sl)}"])
+                    sub = NaiveBuf()
+                    if sub.op(w) == "ok":
+                        written += len(sub.bits)
+                    ops.append(w)
+                elif c <= 7:
+                    off = r2.range(0, 8 * sl)
+                    n = r2.range(0, max(8 * sl - off, 0))
+                    w = r2.choice([f"ww:{src}", f"ww:{src}", f"wl:{src}:{r2.range(0, 8 * sl)}", f"wb:{r2.below(2)}",
+                                   f"w:{src}:{off}:{n}", f"wo:{src}:{off}"])
+                    sub = NaiveBuf()
+                    k = len(sub.bits) if sub.op(w) == "ok" else 0
+                    top = max(written - k, 0)
+                    pos = 8 * r2.range(0, top // 8) if r2.chance(1, 2) else r2.range(0, top)
+                    if r2.chance(1, 12):
+                        pos = r2.range(0, written + 9)
+                    ops.append(f"at:{pos}:{w}")
+                elif c == 8:
+                    ops.append("rb")
+                else:
+                    dn = r2.range(0, 4)
+                    ops.append(f"rr:{dn}")
+            reqs.append("bits buf " + " ".join(ops))
         for _ in range(m):
             sl = rng.range(0, 8)
             ln = rng.range(0, 8 * sl)
@@ -223,7 +290,7 @@ class BitsStream(runner.Stream):
     def oracle(self, req, ans):
         t = req.split(" ")
         if ans in ("panic", "abort", "hang") or ans.endswith(" panic"):
-            if t[1] == "buf" and any(o.startswith("patch:") for o in t[2:]):
+            if t[1] == "buf" and any(o.startswith(("patch:", "at:")) for o in t[2:]):
                 # patching at/after the written bits is outside the property (debug assertion)
                 nb = NaiveBuf()
                 for o in t[2:]:
